@@ -164,7 +164,7 @@ struct Universe {
 fn module(path: &str, src: &str) -> Module {
     Module::new(
         LibraryPath::new(path).expect("module path"),
-        ModuleAst::parse(src).unwrap_or_else(|e| panic!("library module {path} must parse: {e}")),
+        ModuleAst::parse(src).unwrap_or_else(|e| panic!("SUBJECT: library module {path} must parse: {e}")),
     )
 }
 
@@ -182,9 +182,9 @@ fn build_universe() -> Universe {
     let boot = library("l1", vec![module("l1::base", L1_BASE)]);
     let foo_root = Assembler::default()
         .with_library(&boot)
-        .expect("bootstrap library")
+        .expect("SUBJECT: bootstrap library must build")
         .compile("use.l1::base begin exec.base::foo end")
-        .expect("bootstrap program")
+        .expect("SUBJECT: bootstrap program must assemble")
         .hash();
     let e: Vec<u64> = foo_root.as_elements().iter().map(|x| x.as_int()).collect();
     // a::p2 spells out what `procref.base::foo` pushes: identical MAST root, empty callset
@@ -1586,7 +1586,7 @@ fn e_run(c: &ECase, debug: bool) -> EObs {
         match &c.target {
             Target::Program { kernel } => {
                 let a = match kernel {
-                    Some(k) => base.with_kernel(k).expect("part E kernel must assemble"),
+                    Some(k) => base.with_kernel(k).expect("SUBJECT: part E kernel must assemble"),
                     None => base,
                 };
                 a.compile(&c.src).map(|_| ()).map_err(ev)
@@ -1597,7 +1597,7 @@ fn e_run(c: &ECase, debug: bool) -> EObs {
                 let lib = lx(&c.src).map_err(|m| ("ParsingError".to_string(), m))?;
                 let a = base.with_library(&lib).map_err(ev)?;
                 let a = match kernel {
-                    Some(k) => a.with_kernel(k).expect("part E kernel must assemble"),
+                    Some(k) => a.with_kernel(k).expect("SUBJECT: part E kernel must assemble"),
                     None => a,
                 };
                 a.compile("use.lx::m begin exec.m::f end").map(|_| ()).map_err(ev)
